@@ -25,6 +25,15 @@ def match_name(pattern, name):
     s = short(name)
     if s == pattern or name == pattern:
         return True
+    if pattern.endswith("*"):
+        # prefix wildcard on the last component: RequestValidator.Validate*
+        last = s.rsplit(".", 1)[-1]
+        pl = pattern[:-1].rsplit(".", 1)[-1]
+        if not last.startswith(pl):
+            return False
+        if "." not in pattern:
+            return True
+        pattern = pattern[:-1].rsplit(".", 1)[0] + "." + last
     if "." not in pattern and "(" not in pattern:
         return s.endswith("." + pattern) or s == pattern
     # Type.Method
@@ -101,7 +110,19 @@ class SpecCtx:
             return self.binop(a[1], a[2], a[3])
         if k == "ite":
             c = to_bool(self.eval(a[1]))
-            return st.ite(c, self.eval(a[2]), self.eval(a[3]))
+            cs = z3.simplify(c)
+            if z3.is_true(cs):
+                return self.eval(a[2])
+            if z3.is_false(cs):
+                return self.eval(a[3])
+            x, y = self.eval(a[2]), self.eval(a[3])
+            nilish = lambda v: isinstance(v, IfaceV) or (isinstance(v, tuple) and v and v[0] == "nil")
+            if nilish(x) and is_z3(y):
+                y = self.boxed(y)
+            if nilish(y) and is_z3(x):
+                x = self.boxed(x)
+            x, y = self.coerce_nil(x, y), self.coerce_nil(y, x)
+            return st.ite(c, x, y)
         if k == "sel":
             return self.select(a)
         if k == "idx":
@@ -121,6 +142,15 @@ class SpecCtx:
             if x.dyn is not None and x.dyn[0] == T:
                 return x.dyn[1]
             return self.eng.unbox(st, x.ref, T)
+        if k == "lit":
+            T = self.resolve_type(self.flat(a[1]))
+            v = st.zero(T)
+            for (fname, fe) in a[2]:
+                fv = self.eval(fe)
+                if isinstance(fv, tuple) and fv and fv[0] == "nil":
+                    continue
+                v = v.with_field(fname, fv)
+            return v
         if k in ("forall", "exists"):
             return self.quant(a)
         raise SpecError("eval %r" % (a,))
@@ -280,6 +310,11 @@ class SpecCtx:
             return self.is_nil(x)
         if isinstance(x, tuple) and x and x[0] == "nil":
             return self.is_nil(y)
+        # a typed constant compared with an interface: box it the way the compiler does
+        if isinstance(x, IfaceV) and is_z3(y) and y.get_id() in self.leaf_types and not self.eng.ir.is_iface(self.leaf_types[y.get_id()]):
+            y = self.boxed(y)
+        elif isinstance(y, IfaceV) and is_z3(x) and x.get_id() in self.leaf_types and not self.eng.ir.is_iface(self.leaf_types[x.get_id()]):
+            x = self.boxed(x)
         # auto-unbox: comparing an interface holding a known concrete value with a concrete value
         if isinstance(x, IfaceV) and not isinstance(y, IfaceV):
             x = x.dyn[1] if x.dyn is not None else self.unbox_like(x, y)
@@ -296,6 +331,24 @@ class SpecCtx:
         if t is None:
             raise SpecError("cannot compare interface with untyped value")
         return self.eng.unbox(self.st, iv.ref, t)
+
+    def boxed(self, v):
+        """a typed constant (e.g. datatransfer.ErrPause, an errorType string) as the interface value Go would build"""
+        t = self.leaf_types.get(v.get_id())
+        if t is None or self.eng.ir.is_iface(t):
+            raise SpecError("cannot box an untyped value")
+        return self.eng.make_iface(self.st, t, v)
+
+    def coerce_nil(self, x, other):
+        if isinstance(x, tuple) and x and x[0] == "nil":
+            if isinstance(other, IfaceV):
+                return IfaceV(NIL, None)
+            if isinstance(other, PtrV):
+                return PtrV(other.t, None, (), True, NIL, other.roott)
+            if isinstance(other, SliceV):
+                return SliceV(other.t, z3.IntVal(0), SeqLit([]), True)
+            raise SpecError("nil in a conditional of unknown type (other branch %r)" % (other,))
+        return x
 
     def deep_eq(self, a, b):
         """equality that also compares slice contents at a fresh (skolem) index: goal position only"""
@@ -429,9 +482,9 @@ class SpecCtx:
 
     def flat(self, a):
         if a[0] == "id":
-            return a[1]
+            return a[1].replace("__STAR", "*")
         if a[0] == "sel":
-            return self.flat(a[1]) + "." + a[2]
+            return self.flat(a[1]) + "." + a[2].replace("__STAR", "*")
         if a[0] == "un" and a[1] == "*":
             return "*" + self.flat(a[2])
         raise SpecError("not a name: %r" % (a,))
